@@ -144,13 +144,13 @@ _inv_re = re.compile(r"Invariant (\w+) is violated")
 _gen_re = re.compile(r"(\d+) states generated, (\d+) distinct states found")
 
 
-def validate_trace(work, trace_file, invariants, module="TraceArt", timeout=3600):
+def validate_trace(work, trace_file, invariants, module="TraceArt", timeout=3600, spec="TraceSpec"):
     """Run TLC on one trace file. Deterministic trace spec: one state per line."""
     res = TraceResult()
     res.file = trace_file
-    tag = hashlib.md5((trace_file + ",".join(invariants)).encode()).hexdigest()[:10]
+    tag = hashlib.md5((trace_file + spec + ",".join(invariants)).encode()).hexdigest()[:10]
     cfg = os.path.join(work.specdir, "%s_%s.cfg" % (module, tag))
-    write_cfg(cfg, "TraceSpec", invariants,
+    write_cfg(cfg, spec, invariants,
               "POSTCONDITION TraceComplete\nCHECK_DEADLOCK FALSE\nALIAS TraceAlias\n")
     meta = work.fresh("meta")
     env = dict(os.environ)
@@ -190,10 +190,28 @@ def validate_trace(work, trace_file, invariants, module="TraceArt", timeout=3600
     return res
 
 
-def validate_many(work, files, invariants, module="TraceArt", jobs=None):
+def validate_many(work, files, invariants, module="TraceArt", jobs=None, spec="TraceSpec"):
     jobs = jobs or max(1, min(NCPU, len(files)))
     with cf.ThreadPoolExecutor(max_workers=jobs) as ex:
-        return list(ex.map(lambda f: validate_trace(work, f, invariants, module), files))
+        return list(ex.map(lambda f: validate_trace(work, f, invariants, module, spec=spec), files))
+
+
+def measure_drift(work, files, limit=12):
+    """Run the L1 model next to recorded traces (TraceDrift) and compare its tree with the real dumps.
+    Informative: returns a summary for the evidence, never raises a verdict."""
+    pick = [f for f in files if os.path.exists(f)][:limit]
+    if not pick:
+        return {"files": 0}
+    res = validate_many(work, pick, ["DriftFree"], module="TraceDrift", spec="DriftSpec")
+    out = {"files": len(pick), "lines": sum(r.states for r in res), "drift_free": all(r.ok for r in res)}
+    for r in res:
+        if r.invariant:
+            out["first_drift"] = "%s line %s" % (os.path.basename(r.file), r.line)
+            break
+        if r.error:
+            out["error"] = r.error[-300:]
+            break
+    return out
 
 
 def split_trace(path, max_bytes):
